@@ -138,9 +138,12 @@ def rule_c_d(repo, chk):
     covered = {}
     for ch, name in (('\n', 'LF'), ('\r', 'CR')):
         cov = set()
-        for n in walk_no_defs(chkf.node):
-            if isinstance(n, ast.If) and any(isinstance(x, ast.Raise) for x in n.body):
-                test = n.test
+        gk = chkf.cfg()
+        for n in gk.nodes:
+            # a test atom mentioning the character whose true edge can only end in a raise
+            if n.kind == 'test' and any(e.kind == 'T' and (e.dst.kind == 'raise' or (e.dst.kind == 'stmt' and isinstance(e.dst.ast, ast.Raise)) or
+                                                            Q.escapes(gk, [e.dst], lambda x: False, exits=('exit',)) is None) for e in n.succ):
+                test = n.ast
                 if repr(ch)[1:-1] not in src(test):
                     continue
                 # the iterable(s) of the generator expressions in the test, resolved through local lists
